@@ -674,3 +674,97 @@ def r_numparse(ctx, rep):
         else:
             rep.violation("R-NUMPARSE", key, loc(ps[0]), "text bound to a %s field is parsed as %s and then cast: out-of-range and fractional strings are silently saturated / truncated instead of being rejected" % (want, got))
     rep.floor("R-NUMPARSE", 10, "deserialize_{i,u}{8,16,32,64} and deserialize_f{32,64} of DataDeserializer")
+
+
+# ----------------------------------------------------------------------------------------------
+# R-TAB-ATTR: payload widths of the PtgAttr sub-tokens
+
+def _lin(fn, e, depth=0):
+    """(a, b) such that e == a * read_u16(payload) + b, or None"""
+    e = unwrap(e)
+    if not isinstance(e, dict) or depth > 8:
+        return None
+    k = e.get("k")
+    v = lit_value(e) if k in ("Lit",) else None
+    if isinstance(v, int) and not isinstance(v, bool):
+        return (0, v)
+    if k == "Cast":
+        return _lin(fn, e["e"], depth + 1)
+    if k == "Call" and (callee(e) or "").endswith("read_u16"):
+        return (1, 0)
+    if k == "Path":
+        pl = path_local(e)
+        if pl:
+            let, idx = _binding_source(fn, pl[1])
+            if let is not None and idx is None:
+                return _lin(fn, let["init"], depth + 1)
+        return None
+    if k == "Binary":
+        l, r = _lin(fn, e["l"], depth + 1), _lin(fn, e["r"], depth + 1)
+        if l is None or r is None:
+            return None
+        if e["op"] == "+":
+            return (l[0] + r[0], l[1] + r[1])
+        if e["op"] == "-":
+            return (l[0] - r[0], l[1] - r[1])
+        if e["op"] == "*":
+            if l[0] == 0:
+                return (l[1] * r[0], l[1] * r[1])
+            if r[0] == 0:
+                return (l[0] * r[1], l[1] * r[1])
+    return None
+
+
+def r_tab_attr(ctx, rep):
+    from .r_tables import pat_keys
+    from .r_ptg import _ptg_match, _arm_for
+    from .runner import load_table
+    T = load_table("tables/ptg_attr.json")
+    F = ctx.facts("default")
+    for which, name in (("xls", "xls::parse_formula"), ("xlsb", "xlsb::parse_formula")):
+        fn = F.fn(name)
+        m = _ptg_match(fn) if fn else None
+        arm = _arm_for(m, 0x19) if m else None
+        if arm is None:
+            rep.anchor_missing("R-TAB-ATTR", "PtgAttr (0x19) arm of %s" % name)
+            continue
+        inner = None
+        for mm in walk_k(arm["body"], "Match"):
+            ints = [k for a in mm["arms"] for k in pat_keys(a["pat"])[0] if k[0] == "int"]
+            if len(ints) >= 4:
+                inner = mm
+                break
+        if inner is None:
+            rep.anchor_missing("R-TAB-ATTR", "sub-kind match inside the PtgAttr arm of %s" % name)
+            continue
+        for a in inner["arms"]:
+            ks = sorted(k[1] for k in pat_keys(a["pat"])[0] if k[0] == "int")
+            if not ks:
+                continue
+            adv = []
+            for asg in walk_k(a["body"], "Assign"):
+                if path_local(asg["l"]) and path_local(asg["l"])[0] == "rgce":
+                    for ix in walk_k(asg["r"], "Index"):
+                        idx = unwrap(ix["idx"])
+                        if idx.get("k") == "Struct":
+                            f = {x["name"]: x["e"] for x in idx["fields"]}
+                            if "start" in f:
+                                adv.append(_lin(fn, f["start"]))
+            for code in ks:
+                tag = "0x%02x" % code
+                key = "%s|R-TAB-ATTR|%s" % (name, tag)
+                sp = T["sub"].get(tag)
+                if sp is None:
+                    rep.violation("R-TAB-ATTR", key, loc(a), "PtgAttr sub-kind %s is not defined by the specification table (tables/ptg_attr.json)" % tag)
+                    continue
+                if None in adv or not adv:
+                    rep.violation("R-TAB-ATTR", key, loc(a), "cannot evaluate how many payload bytes the %s arm consumes" % sp["name"])
+                    continue
+                tot = (sum(x[0] for x in adv), sum(x[1] for x in adv))
+                want = (0, 2) if sp["width"] == 2 else (2, 4)
+                if tot == want:
+                    rep.holds("R-TAB-ATTR", key, loc(a), "%s consumes %s payload bytes" % (sp["name"], sp["width"]))
+                else:
+                    got = ("%d" % tot[1]) if tot[0] == 0 else "%d * cOffset + %d" % tot
+                    rep.violation("R-TAB-ATTR", key, loc(a), "%s must consume %s payload bytes but the %s decoder consumes %s: the tokens after it are read from the wrong offset" % (sp["name"], sp["width"], which, got))
+    rep.floor("R-TAB-ATTR", 14, "PtgAttr sub-kinds handled by the two decoders")
